@@ -174,7 +174,9 @@ func rankGen(r *rand.Rand, count int, emit func(op string, args ...string)) {
 					idx++
 				}
 				if sorted {
-					sort.SliceStable(rs, func(x, y int) bool { return fzf.VerifCompareRanks(rs[x], rs[y], tac) && !fzf.VerifCompareRanks(rs[y], rs[x], tac) })
+					sort.SliceStable(rs, func(x, y int) bool {
+						return fzf.VerifCompareRanks(rs[x], rs[y], tac) && !fzf.VerifCompareRanks(rs[y], rs[x], tac)
+					})
 				}
 				ss := []string{}
 				for _, x := range rs {
